@@ -175,13 +175,12 @@ Definition mod_hdr (f : header -> header) : Mst unit := modS (fun s => set_hdr s
 Definition when (b : bool) (m : Mst unit) : Mst unit := if b then m else ret tt.
 
 (* ---------- c3d::updateHeader ---------- *)
-(* sub-frames per frame from the rate ratio (1 when the point rate truncates to 0); only when ANALOG has parameters *)
+(* sub-frames per frame from the rate ratio (1 when the point rate IS 0); only when ANALOG has parameters *)
 Definition analog_rate_step (rate : f32) : Mst unit :=
   s <- getS ;;
   ga <- get_group nm_ANALOG ;;
   when (negb (nlen (g_params ga) =? 0))
-    (rs <- lift (f_tosize rate) ;;
-     if rs =? 0 then
+    (if f32_is_zero rate then
        when (negb (h_byframe (hdr s) =? 1)) (mod_hdr (fun h => h_set_byframe h 1))
      else
        ar <- float0 15 nm_ANALOG nm_RATE ;;
